@@ -103,7 +103,9 @@ func classifyLine(b, a rawLine) []lineChange {
 	}
 	if p <= len(b.Text)-s && p <= len(a.Text)-s {
 		ot, nt := b.Text[p:len(b.Text)-s], a.Text[p:len(a.Text)-s]
-		if isDurTok(ot) && isDurTok(nt) {
+		// the duration VALUE is the first token of the entry line; a duration-like word in the
+		// summary is not the pause entry's value
+		if isDurTok(ot) && isDurTok(nt) && strings.Trim(b.Text[:p], " \t") == "" && p > 0 {
 			return append(cs, lineChange{kind: "duration", oldTok: ot, newTok: nt})
 		}
 	}
